@@ -2208,6 +2208,17 @@ impl<'w, 'k, W: Write> SerializeSeq for ElementSerializer<'w, 'k, W> {
     }
 //@end
 }
+impl<'w, 'k, W: Write> ElementSerializer<'w, 'k, W> {
+// AUDIT COPY (known finding, C19): the same real function under the clause the property asks for -- an item of a sequence of elements
+// RE-ENABLES the indent (flag false -> true) only if it wrote something. A NESTED EMPTY sequence as an item writes nothing and the flag is
+// set all the same (the pattern repaired in Struct::write_element by 8d87d26; here the writer is a generic fmt::Write whose output the
+// function cannot measure, so the local repair does not carry over). Expected to fail exactly this clause (known_findings.txt).
+//@extract element::ElementSerializer::seq_serialize_element#audit | - | clone_of=element::ElementSerializer::seq_serialize_element rename=serialize_element:serialize_element__audit serves=C19 audit=1 nocanary=1
+//@rewrite Result<(), Self::Error> ==> Result<(), SeError>
+//@patch -> Result<(), Self::Error> ==> -> (r: Result<(), SeError>)
+//@patch T: ?Sized + Serialize, ==> T: ?Sized + Serialize,\n        requires ind_ok(old(self).ser.indent) && is_xml_name(old(self).key.0@),\n        ensures r is Ok && final(self).ser.write_indent && !old(self).ser.write_indent ==> (*final(self).ser.writer).out() != (*old(self).ser.writer).out(), // C19: re-enabled only by writing markup
+//@end
+}
 impl<'w, 'k, W: Write> SerializeTuple for ElementSerializer<'w, 'k, W> {
     type Ok = WriteResult;
     type Error = SeError;
